@@ -171,6 +171,7 @@ type histRunner struct {
 	gcReleased       int64
 	gcKept           int64
 	reopens          int
+	crashes          int
 	deletedFiles     int
 }
 
@@ -1120,6 +1121,8 @@ func (r *histRunner) step(i int, op *Op) error {
 		return hooks.releaseRotFlush()
 	case "reopen":
 		return r.doReopen(op)
+	case "crash":
+		return r.doCrash(op)
 	case "gc":
 		if err := r.doGC(op); err != nil {
 			return err
@@ -1208,7 +1211,7 @@ func (r *histRunner) run() (err error) {
 			if e := r.checkGet(op.K, "read-after-write"); e != nil {
 				return fmt.Errorf("op %d %s: %v", i, opString(op, &r.h.Cfg), e)
 			}
-		case "reopen", "gc", "merge", "gcpark", "gcreq":
+		case "reopen", "crash", "gc", "merge", "gcpark", "gcreq":
 			if e := r.sweep("sweep after " + op.Kind); e != nil {
 				return fmt.Errorf("op %d %s: %v", i, opString(op, &r.h.Cfg), e)
 			}
